@@ -168,7 +168,7 @@ func c14Files(g *gen.G, pi int) []string {
 		}
 		out = append(out, g.File(gen.FileOpts{Plants: plants, Imports: imports, Decls: 2 + r.Intn(5)}))
 	}
-	out = append(out, "package p\n\nfunc broken( {\n")                          // unparseable
+	out = append(out, "package p\n\nfunc broken( {\n")                                               // unparseable
 	out = append(out, "// Code generated by x. DO NOT EDIT.\n\npackage p\n\nfunc g() { bump(1) }\n") // generated
 	return out
 }
@@ -189,8 +189,8 @@ func init() {
 			}
 			return 64
 		},
-		Floor:   func(string) int { return 60 },
-		Run:     runC14,
+		Floor:     func(string) int { return 60 },
+		Run:       runC14,
 		Race:      true,
 		Workers:   12,
 		CPUBudget: 600,
